@@ -7,6 +7,8 @@ from .. import scope as scopemod
 from .. import e3 as e3mod
 from .. import e4 as e4mod
 
+from . import shared
+
 LEVEL = "other"
 EXPLANATION = (
     "Decided as non-interference over the SQL model: every statement executed "
@@ -23,10 +25,13 @@ EXPLANATION = (
     "decides the data-level clause of the property (no statement touches or "
     "reads another app's rows, no answer depends on them) but one finding is "
     "open, and timing/resource interference is not modelled.")
+EXPLANATION += " Also decided: every entry point exits clean on the connection all apps share; namespaces are constructed only by the registry's get-or-create (factory call sites included)."
 
 
 def run(ctx):
     model = ctx.model
+    shared.r_durable(ctx, "R06.durable", ("chan",),
+                     "whether this app's change survives a restart depends on whether some other app's command commits the shared connection afterwards")
     sc = scopemod.get(model)
     ctx.rule("R06.scope", "every WHERE disjunct / VALUES list of every Mailbox and "
              "AppNamespace statement contains a conjunct bound to an app-scoped value")
@@ -75,7 +80,10 @@ def run(ctx):
                 nserver += 1
                 ok = False
                 why = ""
-                if st.kind == "select" and st.distinct and st.cols == ["app_id"] and st.where is None:
+                members = [st] + list(st.extra.get("union", [])) if st.kind == "select" else []
+                if members and (st.distinct or len(members) > 1) and all(
+                        m.cols == ["app_id"] and m.where is None and
+                        not m.extra.get("joins") for m in members):
                     ok = True
                     why = "enumerates app ids"
                 elif e["db"] == "usage" and st.table == "current":
@@ -122,7 +130,7 @@ def run(ctx):
     e4 = e4mod.get(model)
     for f in e4.findings:
         if f.kind in ("registry_key", "construct_once") and "AppNamespace" in f.construct \
-                or (f.kind == "registry_key" and "Server._apps" in f.construct):
+                or (f.kind == "registry_key" and model.names.reg_name("apps") in f.construct):
             ctx.ob("R06.bind", f.construct, f.ok, f.site, f.detail)
     ctx.assume("R-plumb: AppNamespace._app_id / Mailbox._app_id are the registry key "
                "of Server._apps (checked by the shared rule R-plumb and E4 registry_key)")
